@@ -184,7 +184,11 @@ func u09(c *ctx, api string, rbuf, wbuf int, tail string, chunks [][]byte, cfg u
 		}
 		cls = upgradeErrClass(err)
 	}()
-	c.emit("U09 %s %d %d %s %s %s -> %s %s %s %s", api, rbuf, wbuf, tail, encChunks(chunks), cfg.tokens(),
+	var flat []byte
+	for _, ch := range chunks {
+		flat = append(flat, ch...)
+	}
+	c.emit("U09 %s %d %d %s %s %s t=%s -> %s %s %s %s", api, rbuf, wbuf, tail, encChunks(chunks), cfg.tokens(), headTag(flat),
 		cls, hx([]byte(hs.Protocol)), encOpts(hs.Extensions), hx(conn.out.Bytes()))
 }
 
@@ -323,9 +327,19 @@ func h09(c *ctx, api, method string, major, minor int, host string, hdr []hmEntr
 	if u.Header != nil && api != "ws" {
 		u.Header.Write(&hb)
 	}
-	c.emit("H09 %s %s %d %d %s %s %s %s %s %s %s %s -> %s %s %s %s", api, hx([]byte(method)), major, minor,
+	tag := "-"
+	for _, e := range hdr {
+		if isListHeader(e.key) {
+			for _, v := range e.vals {
+				if strings.Contains(strings.Trim(v, " \t"), "\t") {
+					tag = "htlist"
+				}
+			}
+		}
+	}
+	c.emit("H09 %s %s %d %d %s %s %s %s %s %s %s %s t=%s -> %s %s %s %s", api, hx([]byte(method)), major, minor,
 		hx([]byte(host)), encHeaderMap(hdr), encHeaderMap(cfgHdr), encSet(proto), encSet(ext), encNeg(neg),
-		hx(hb.Bytes()), encStatusTexts(codes...),
+		hx(hb.Bytes()), encStatusTexts(codes...), tag,
 		cls, hx([]byte(hs.Protocol)), encOpts(hs.Extensions), hx(w.out.Bytes()))
 }
 
